@@ -78,8 +78,12 @@ def snapshot(self):
         for n in base.nodes:
             # the name under which the fragment is looked up: atom names of the previous level
             names[n] = base.nodes[n].get('atomname', base.nodes[n].get('fragname')) if level > 0 else base.nodes[n].get('fragname')
+        # fragment graphs the CALLER handed to from_fragment_dicts, snapshotted by the harness before the constructor saw
+        # them: a constructor that edits them must not be judged by its own edit
+        given = CONTEXT.get('given_templates')
+        templates = given[level] if given and level < len(given) else {k: snap_graph(g) for k, g in fragment_dict.items()}
         return dict(level=level, all_atom=all_atom, legacy=(self.legacy if want_legacy is None else want_legacy), fragment_dict=fragment_dict,
-                    templates={k: snap_graph(g) for k, g in fragment_dict.items()},
+                    templates=templates,
                     base_edges={frozenset((a, b)): d.get('order', 1) for a, b, d in base.edges(data=True)},
                     base_nodes=list(base.nodes), base_names=names, base_obj=base)
     except Exception as err:   # internal layout changed: the API-level oracles still apply
